@@ -59,6 +59,17 @@ class AAliased:
     __aexit__ = aclose
 
 
+class ProxyAexit:
+    """an async manager whose __aexit__ is a plain def that delegates (returns another object's coroutine): its synchronous part
+    runs while the `async with` is being exited"""
+    class _Inner:
+        async def __aexit__(s, *a): return isinstance(a[1], KeyError)
+    async def __aenter__(s): return s
+    def __aexit__(s, *a):
+        probe()
+        return ProxyAexit._Inner().__aexit__(*a)
+
+
 SYNC = [Plain, Aliased, Decorated, Inherited, Lambda]
 LEAVE = ["fall", "return", "break", "raise"]
 
@@ -107,7 +118,7 @@ def drive(kind, M, how, holder):
         except StopIteration: pass
 
 
-for kind, Ms in (("function", SYNC), ("generator", SYNC), ("coroutine", [AAliased])):
+for kind, Ms in (("function", SYNC), ("generator", SYNC), ("coroutine", [AAliased, ProxyAexit])):
     for M, how in itertools.product(Ms, LEAVE):
         del SEEN[:]
         holder = []
@@ -122,8 +133,8 @@ for kind, Ms in (("function", SYNC), ("generator", SYNC), ("coroutine", [AAliase
         st = SEEN[0]
         fr = st.frames[0]
         cs = fr.contexts
-        if st.error is not None or not cs or not cs[-1].is_exiting or cs[-1].obj is not holder[0]:
-            leg.violation(key, f"probe from inside the exit function {M.__name__}.{('__aexit__' if kind == 'coroutine' else '__exit__')} "
+        if st.error is not None or not cs or not cs[-1].is_exiting or cs[-1].obj is not holder[0] or cs[-1].is_async != (kind == "coroutine"):
+            leg.violation(key, f"probe from inside the exit function (is_async={cs[-1].is_async if cs else None}) {M.__name__}.{('__aexit__' if kind == 'coroutine' else '__exit__')} "
                                f"(leaving by {how}): contexts {[(c.obj, c.is_exiting) for c in cs]}, expected the manager {holder[0]!r} last and exiting; "
                                f"error={st.error!r}")
 
